@@ -39,6 +39,9 @@ type c05DictRow struct {
 	DB  []byte `parquet:"db"`
 	ODB []byte `parquet:"odb,optional"`
 	PDB []byte `parquet:"pdb"`
+	// dictionary-encoded decimals of the other physical types (the dictionary's Type() must keep the decimal order)
+	DFL  [9]byte `parquet:"dfl,decimal(2:20),dict"`
+	OD64 *int64  `parquet:"od64,optional,decimal(2:18),dict"`
 }
 
 // c05DictSchema: the struct's schema with the three decimal leaves replaced (columns sorted by name).
@@ -100,6 +103,13 @@ var c05DictCols = []c05DictCol{
 		}
 	}},
 	{"pdb", "decb", false, func(r *c05DictRow, v *c05Val) { r.PDB = append([]byte{}, v.b...) }},
+	{"dfl", "dec9", false, func(r *c05DictRow, v *c05Val) { copy(r.DFL[:], v.b) }},
+	{"od64", "dec64", true, func(r *c05DictRow, v *c05Val) {
+		if v != nil {
+			x := int64(v.bits)
+			r.OD64 = &x
+		}
+	}},
 }
 
 // c05DictFile generates, writes and checks one file; everything derives from ctx.Rand(id).
